@@ -415,6 +415,10 @@ func runC11(c *eng.Ctx) {
 	}
 
 	// ---- R6 every tick asks every schedule hook
+	// ---- R7: a schedule is identified by its crontab string as written
+	r7 := c.Rule("C11.R7", "D:provenance", "the schedule manager keys its entries by ScheduleEntry.Crontab itself and the tick carries that same string (the bindings controllers select their links by comparing it, unchanged, with their own copy)", 2)
+	runC11R7(c, r7)
+
 	r6 := c.Rule("C11.R6", "B:must-pass", "Manager.HandleScheduleEvent: on every path every hook registered for schedule bindings is asked CanHandleScheduleEvent for this tick (the answer depends on which bindings are enabled now and must not be remembered)", 1)
 	if f := r6.NeedFunc(pkgHook + ".(*Manager).HandleScheduleEvent"); f != nil {
 		canHandle := p.Method(pkgCtrl, "HookController", "CanHandleScheduleEvent")
@@ -505,4 +509,62 @@ func extOrLocalField(p *eng.Prog, pkgShort, typ, field string) *types.Var {
 		return v
 	}
 	return extField(p, full(pkgShort), typ, field)
+}
+
+// runC11R7: every key used with scheduleManager.Entries in Add / Remove (index, store, delete) is the Crontab field
+// of the entry passed in, possibly held in a local; the value sent on ScheduleCh by the scheduled function is that
+// field too. A normalised or otherwise derived key makes the manager and the controllers disagree on which bindings
+// a tick belongs to.
+func runC11R7(c *eng.Ctx, r *eng.RuleCtx) {
+	p := c.P
+	entries := p.Field(pkgSched, "scheduleManager", "Entries")
+	ch := p.Field(pkgSched, "scheduleManager", "ScheduleCh")
+	crontab := extOrLocalField(p, "pkg/schedule_manager/types", "ScheduleEntry", "Crontab")
+	if entries == nil || crontab == nil || ch == nil {
+		r.Unknown("anchor:scheduleManager.Entries/ScheduleEntry.Crontab", token.NoPos, "not found")
+		return
+	}
+	for _, name := range []string{"Add", "Remove"} {
+		f := r.NeedFunc(pkgSched + ".(*scheduleManager)." + name)
+		if f == nil {
+			continue
+		}
+		info := f.Pkg.TypesInfo
+		isCrontab := func(e ast.Expr) bool {
+			return eng.IsField(info, resolveLocal(info, f.Decl.Body, e), crontab)
+		}
+		n, bad := 0, 0
+		var pos token.Pos = f.Decl.Pos()
+		ast.Inspect(f.Decl.Body, func(x ast.Node) bool {
+			switch t := x.(type) {
+			case *ast.IndexExpr:
+				if eng.IsField(info, t.X, entries) {
+					n++
+					if !isCrontab(t.Index) {
+						bad++
+						pos = t.Pos()
+					}
+				}
+			case *ast.CallExpr:
+				if d := builtinCall(info, t, "delete"); d != nil && len(d.Args) == 2 && eng.IsField(info, d.Args[0], entries) {
+					n++
+					if !isCrontab(d.Args[1]) {
+						bad++
+						pos = t.Pos()
+					}
+				}
+			case *ast.SendStmt:
+				if eng.IsField(info, t.Chan, ch) {
+					n++
+					if !isCrontab(t.Value) {
+						bad++
+						pos = t.Pos()
+					}
+				}
+			}
+			return true
+		})
+		r.Check(n > 0 && bad == 0, f.Key+" keys", pos, fmt.Sprintf("%d uses of Entries / ScheduleCh, all with the entry's Crontab", n),
+			fmt.Sprintf("%d of %d keys of scheduleManager.Entries (or values sent as the tick) are not the entry's Crontab string itself: the manager and the bindings controllers no longer agree on what identifies a schedule, a binding whose crontab is spelled differently gets no tasks", bad, n))
+	}
 }
